@@ -318,6 +318,66 @@ func runC14(c *Ctx) {
 	// ---- R14.10: what a call answers does not depend on arrival or iteration order ---
 	checkArrivalOrder(c, p, fns)
 
+	// ---- R14.11: no goroutine of a call waits for something that belongs to all calls ----
+	// a channel that is a package-level variable (a pool of slots, a limiter) outlives the call: a goroutine that takes a slot
+	// and then waits for goroutines of its own that need slots as well never finishes once enough calls overlap
+	{
+		region := eng.ConcurrentRegion(fns)
+		nOps, bad := 0, ""
+		var fromGlobal func(v ssa.Value, d int) bool
+		fromGlobal = func(v ssa.Value, d int) bool {
+			if d > 4 {
+				return false
+			}
+			switch x := v.(type) {
+			case *ssa.Global:
+				return true
+			case *ssa.UnOp:
+				return fromGlobal(x.X, d+1)
+			case *ssa.FieldAddr:
+				return fromGlobal(x.X, d+1)
+			case *ssa.Phi:
+				for _, e := range x.Edges {
+					if fromGlobal(e, d+1) {
+						return true
+					}
+				}
+			}
+			return false
+		}
+		for f := range region {
+			for _, b := range f.Blocks {
+				for _, in := range b.Instrs {
+					var ch ssa.Value
+					switch x := in.(type) {
+					case *ssa.Send:
+						ch = x.Chan
+					case *ssa.UnOp:
+						if x.Op == token.ARROW {
+							ch = x.X
+						}
+					case *ssa.Select:
+						for _, st := range x.States {
+							if fromGlobal(st.Chan, 0) {
+								ch = st.Chan
+							}
+						}
+					}
+					if ch == nil {
+						continue
+					}
+					nOps++
+					if fromGlobal(ch, 0) {
+						bad = core.ShortFn(f) + " (" + p.Pos(in.Pos()) + ")"
+					}
+				}
+			}
+		}
+		c.R.Check(bad == "", "R14.11", "stringclassifier: no spawned goroutine sends to or receives from a package-level channel", scPkg,
+			fmt.Sprintf("%d functions can run in spawned goroutines, %d channel operations in them, none on a package-level channel", len(region), nOps),
+			"a goroutine of a call blocks on a channel that is shared by all calls in "+bad+": goroutines that hold a slot while they wait for others that need one stop for ever when calls overlap")
+	}
+
 	// ---- R14.6: a known value is complete before it is published ----------------------
 	checkPublishAfterInit(c, p, fns, kvName, setField)
 
